@@ -5,7 +5,7 @@ use serde_json::{json, Value};
 use std::collections::HashMap;
 use std::path::{Path, PathBuf};
 pub use sv_parser::{
-    parse_lib_pp, parse_lib_str, parse_sv_pp, parse_sv_str, preprocess, preprocess_str, Define, DefineText, Defines,
+    parse_lib, parse_lib_pp, parse_lib_str, parse_sv, parse_sv_pp, parse_sv_str, preprocess, preprocess_str, Define, DefineText, Defines,
     Error, Locate, NodeEvent, PreprocessedText, RefNode, SyntaxTree,
 };
 
